@@ -407,6 +407,14 @@ fn shrink<P: Prop>(
     (best, best_f, steps)
 }
 
+static TICKS: AtomicU64 = AtomicU64::new(0);
+
+/// Long-running checks call this from their inner loops so that the watchdog can tell
+/// "slow but working" from "stuck".
+pub fn tick() {
+    TICKS.fetch_add(1, Ordering::Relaxed);
+}
+
 pub fn worker<P: Prop>(args: &WorkerArgs) -> i32 {
     install_panic_hook();
     crate::alloc_count::track_this_thread();
@@ -424,11 +432,11 @@ pub fn worker<P: Prop>(args: &WorkerArgs) -> i32 {
         let out = args.out.clone();
         let hang_secs = args.hang_secs;
         std::thread::spawn(move || {
-            let mut last = progress.load(Ordering::Relaxed);
+            let mut last = progress.load(Ordering::Relaxed).wrapping_add(TICKS.load(Ordering::Relaxed));
             let mut since = Instant::now();
             loop {
                 std::thread::sleep(Duration::from_millis(500));
-                let now = progress.load(Ordering::Relaxed);
+                let now = progress.load(Ordering::Relaxed).wrapping_add(TICKS.load(Ordering::Relaxed));
                 if now != last {
                     last = now;
                     since = Instant::now();
